@@ -286,6 +286,49 @@ func runC09(c *core.Ctx) {
 		c.Check(ok, name+"#Finish-required", p.Pos(fin.Pos()), "Finish can report missing required fields", "Finish of a struct assembler cannot report ErrMissingRequiredField: a struct missing required fields is built silently")
 	}
 
+	c.Rule("C09.splitexact", "a stringjoin struct is taken apart without a limit on the number of parts: where bindnode splits the representation string by the strategy's delimiter (GetDelim) it uses strings.Split (or SplitN with a negative count), so that the comparison of the number of parts with the number of fields sees surplus components and rejects them", 1)
+	{
+		nsp := 0
+		for _, fn := range p.ModFns {
+			pk := core.FuncPkg(fn)
+			if pk == nil || core.RelPkg(pk.Path()) != "node/bindnode" || len(fn.Blocks) == 0 {
+				continue
+			}
+			for _, ci := range core.Calls(fn) {
+				o := core.CalleeObj(ci)
+				if o == nil || o.Pkg() == nil || o.Pkg().Path() != "strings" || len(ci.Common().Args) < 2 || o.Type().(*types.Signature).Recv() != nil {
+					continue
+				}
+				if !strings.HasPrefix(o.Name(), "Split") && o.Name() != "Cut" {
+					continue
+				}
+				byDelim := false
+				for w := range core.BackSlice(ci.Common().Args[1], core.SliceOpts{Stores: true}) {
+					if cl, ok := w.(*ssa.Call); ok && core.CalleeObj(cl) != nil && core.CalleeObj(cl).Name() == "GetDelim" {
+						// the delimiter of a struct's stringjoin strategy (a stringprefix union splits off one prefix, by design)
+						if rn := core.RecvNamed(core.CalleeObj(cl)); rn != nil && strings.HasPrefix(rn.Obj().Name(), "StructRepresentation") {
+							byDelim = true
+						}
+					}
+				}
+				if !byDelim {
+					continue
+				}
+				nsp++
+				good := o.Name() == "Split"
+				if o.Name() == "SplitN" && len(ci.Common().Args) == 3 {
+					if k, isC := core.ConstInt(ci.Common().Args[2]); isC && k < 0 {
+						good = true
+					}
+				}
+				c.Check(good, fmt.Sprintf("%s#split-by-delim%d", core.FuncKey(fn), nsp), p.Pos(ci.Pos()), "split without a limit", "the representation string is split with strings."+o.Name()+" under a limit: surplus components are folded into the last part, the part count always matches, and input that does not conform to the schema is accepted")
+			}
+		}
+		if nsp == 0 {
+			c.Undecided("node/bindnode#stringjoin-split", "-", "no split of a representation string by the strategy's delimiter found")
+		}
+	}
+
 	c.Rule("C09.fieldnil", "in node/bindnode every result of (*schema.TypeStruct).Field (nil for an unknown name) is compared with nil before any method is called on it", 2)
 	for _, fn := range p.ModFns {
 		pk := core.FuncPkg(fn)
